@@ -238,6 +238,8 @@ func runC04(rc *RunCtx) {
 		s.SetFaults(30, 2, FaultErrNA)
 	}
 	retried := false
+	s.SwarmFreeze()
+	rc.Cfg("sched", fmt.Sprintf("stall=%d yield_on_release=%v", s.FreezePermille, s.YieldOnRelease))
 	s.SetControlled()
 	for i := 0; i < nRev; i++ {
 		i := i
